@@ -10,7 +10,7 @@
    after consuming d tokens the continuation may use (c - d, s + d, r + 3 d).  The handlers of the model are
    checked against these types by the tactic `pstep`. *)
 From Coq Require Import NArith ZArith List Bool Arith Lia ZifyBool ZifyNat ZifyN.
-From GV Require Import model.Utf8 gen.TablesLexer model.Lexer model.ParserSkel.
+From GV Require Import model.Utf8 gen.TablesLexer model.Lexer model.ParserSkel proofs.LexerProofs.
 Import ListNotations.
 Local Open Scope nat_scope.
 
@@ -470,3 +470,16 @@ Lemma example_1_plus_2 :
   mk_res (POk (SN "BinaryExpr"%tag [SN "Literal"%tag [SN "Number"%tag [SS [49%N]]]; SN "Plus"%tag [];
                                     SN "Literal"%tag [SN "Number"%tag [SS [50%N]]]], 4)) 2.
 Proof. vm_compute. reflexivity. Qed.
+
+(* tokenizer and expression parser together: a text is answered by an AST, an error ("Unhandled character" or a
+   parse error) or PUnsup; never a panic, never out of fuel *)
+Theorem front_end_total is_alpha is_numeric q :
+  (blen q < USIZE)%N ->
+  (exists r, front_end is_alpha is_numeric q = Ok r /\ out r <> PPanic /\ out r <> PFuel) \/
+  (exists c, front_end is_alpha is_numeric q = Err c).
+Proof.
+  intros Hlen. unfold front_end.
+  destruct (lexer_total is_alpha is_numeric q Hlen) as [[toks [st E]]|[c E]]; rewrite E.
+  - left. eexists. split; [reflexivity|]. apply parser_total.
+  - right. exists c. reflexivity.
+Qed.
